@@ -88,6 +88,13 @@ func c09Run(c *ctx, fn string, mp [][][][2]int, q [][2]int) {
 	c.emit(e)
 }
 
+func absInt(v int) int {
+	if v < 0 {
+		return -v
+	}
+	return v
+}
+
 func latticeQ(lo, hi, step int) [][2]int {
 	var q [][2]int
 	for x := lo; x <= hi; x += step {
@@ -157,6 +164,42 @@ func init() {
 				c09Run(c, "ring", [][][][2]int{{v}}, q)
 			}
 		}
+		// (3b) rings on the integer grid 0..16 (slanted edges whose run and rise are not powers of two) against the points
+		// that lie exactly on their edges - the lattice points of each edge and its midpoint - and the points half a step
+		// beside those
+		for n := 0; n < c.pick(2000, 20000); n++ {
+			k := 3 + c.rng.Intn(3)
+			r := make([][2]int, k)
+			for i := range r {
+				r[i] = [2]int{4 * c.rng.Intn(17), 4 * c.rng.Intn(17)}
+			}
+			var qs [][2]int
+			for i := range r {
+				a, b := r[i], r[(i+1)%k]
+				dx, dy := (b[0]-a[0])/4, (b[1]-a[1])/4
+				g := gcdInt(absInt(dx), absInt(dy))
+				if g == 0 {
+					continue
+				}
+				for t := 0; t <= 2*g; t++ { // lattice points of the edge and the half-way points between them (units of 1/4: exact)
+					q := [2]int{a[0] + (b[0]-a[0])*t/(2*g), a[1] + (b[1]-a[1])*t/(2*g)}
+					if (b[0]-a[0])*t%(2*g) != 0 || (b[1]-a[1])*t%(2*g) != 0 {
+						continue
+					}
+					qs = append(qs, q, [2]int{q[0] + 2, q[1]}, [2]int{q[0], q[1] - 2})
+				}
+			}
+			if len(qs) == 0 {
+				continue
+			}
+			c09Off = c09Offsets[c.rng.Intn(len(c09Offsets))]
+			rot := c.rng.Intn(k)
+			c09Run(c, "ring", [][][][2]int{{r}}, qs)
+			c09Run(c, "ring", [][][][2]int{{append(append([][2]int{}, r[rot:]...), r[:rot]...)}}, qs)
+			if n%4 == 0 { // the same ring as a hole of a square around everything
+				c09Run(c, "poly", [][][][2]int{{{{-4, -4}, {68, -4}, {68, 68}, {-4, 68}}, r}}, qs)
+			}
+		}
 		// (4) polygons with holes and multipolygons from small boxes/triangles (holes may touch or
 		// cross the outer ring: the statement is pointwise, "outer and no hole", whatever the rings are).
 		np := c.pick(400, 4000)
@@ -172,12 +215,30 @@ func init() {
 				return [][2]int{{x0, y0 + h}, {x0 + w, y0 + h}, {x0 + w/2, y0}, {x0, y0 + h}}
 			}
 		}
+		// holes without area: a bow-tie whose two lobes cancel, a ring folded onto a line (their points still are "in the
+		// hole": inside under the even-odd rule or on its boundary)
+		flat := func() [][2]int {
+			x0, y0 := 2*(1+c.rng.Intn(6)), 2*(1+c.rng.Intn(6))
+			w := 2 * (1 + c.rng.Intn(3))
+			switch c.rng.Intn(3) {
+			case 0:
+				return [][2]int{{x0, y0}, {x0 + 2*w, y0 + 2*w}, {x0 + 2*w, y0}, {x0, y0 + 2*w}} // symmetric bow-tie
+			case 1:
+				return [][2]int{{x0, y0}, {x0 + 2*w, y0 + w}, {x0 + w, y0 + w/2*1}, {x0, y0}} // out and back along (almost) one line
+			default:
+				return [][2]int{{x0, y0}, {x0 + 2*w, y0}, {x0 + w, y0}, {x0, y0}} // folded onto a horizontal segment
+			}
+		}
 		for n := 0; n < np; n++ {
 			var mp [][][][2]int
 			for p := 0; p < 1+c.rng.Intn(3); p++ {
 				poly := [][][2]int{shape()}
 				for h := 0; h < c.rng.Intn(3); h++ {
-					poly = append(poly, shape())
+					if c.rng.Intn(4) == 0 {
+						poly = append(poly, flat())
+					} else {
+						poly = append(poly, shape())
+					}
 				}
 				mp = append(mp, poly)
 			}
